@@ -528,11 +528,22 @@ class PathResult:
         self.ctx, self.status, self.value, self.exc = ctx, status, value, exc
 
 
-def explore(fn, max_paths=20000, tlimit=600.0, ieee_div=False, catch=(Exception,), prefix=None):
+def explore(fn, max_paths=20000, tlimit=600.0, ieee_div=False, catch=(Exception,), prefix=None, sink=None):
     """Enumerate every solver-feasible path of fn(ctx).  Returns (paths, exhaustive, seconds).
     status: 'ok' | 'exc' (an ordinary exception of the code under analysis) | 'unsupported'."""
     pending = [list(prefix or [])]
     out = []
+    if sink is not None:        # streaming: paths are handed to sink() and not retained
+        class _Count(list):
+            n = 0
+
+            def append(self, x):
+                self.n += 1
+                sink(x)
+
+            def __len__(self):
+                return self.n
+        out = _Count()
     t0 = time.time()
     exhaustive = True
     while pending:
